@@ -40,6 +40,13 @@ func (lam *Lambda) Call(s *Scope, args List, depth int) (result Object) {
 	if 0 < len(lam.Doc.Name) {
 		ss.Name = Symbol(lam.Doc.Name)
 	}
+	// A parameter is unbound if no argument was bound to it in the new
+	// scope, a variable of the same name in an enclosing scope or a global
+	// variable does not count.
+	bound := func(name string) bool {
+		_, has := ss.Vars[strings.ToLower(name)]
+		return has
+	}
 	mode := reqMode
 	ai := 0
 	var (
@@ -111,8 +118,9 @@ Aux:
 						ErrorPanic(s, depth, "Missing value for key :%s.", sym)
 					}
 					// Only a &key parameter is bound, a keyword must not
-					// overwrite some other variable of the same name.
-					if lam.Doc.getKeyArg(string(sym)) != nil {
+					// overwrite some other variable of the same name. If
+					// a keyword is given more than once the first counts.
+					if lam.Doc.getKeyArg(string(sym)) != nil && !bound(string(sym)) {
 						ss.Let(sym, args[ai])
 					}
 					ai++
@@ -130,13 +138,6 @@ Aux:
 	}
 	// Next bind any unbound &optional and &key vars to the value of their
 	// default form, evaluated in the scope being built, then the &aux vars.
-	// A parameter is unbound if no argument was bound to it in the new
-	// scope, a variable of the same name in an enclosing scope or a global
-	// variable does not count.
-	bound := func(name string) bool {
-		_, has := ss.Vars[strings.ToLower(name)]
-		return has
-	}
 	mode = reqMode
 	for _, ad := range lam.Doc.Args {
 		switch mode {
